@@ -308,8 +308,8 @@ def check_C07(tier, seed):
 
 
 def check_C14(tier, seed):
-    return codec_family("C14", tier, seed, "life", exact=False, san="asan", valcap=3 if tier == "quick" else 10, maxfail=8 if tier == "quick" else 24,
-                        rule="per (type, value, syntax) histories: starved chunked decode then free; decode, RESET (structure must be all zero), decode into the reset structure, re-encode, free; failure of the k-th library allocation (k = 1..MaxFail) during decode / encode, then free; truncated / damaged input then free or reset + re-decode; the allocation ledger (link-time wrapped allocator) must be empty after the last free; ASan build turns double frees into Crash events")
+    return codec_family("C14", tier, seed, "life", exact=False, san="asan", valcap=3 if tier == "quick" else 10, maxfail=3 if tier == "quick" else 12,
+                        rule="per (type, value, syntax) histories: starved chunked decode then free; decode, RESET (structure must be all zero), decode into the reset structure, re-encode, free; failure of the k-th library allocation during decode / encode, for EVERY k up to the number of allocations of the undisturbed call (in-driver sweep; plus explicit histories for k = 1..MaxFail), then free; valid encodings of values the native C representation cannot hold (2^63, 2^64, ...) decoded and freed; truncated / damaged input then free or reset + re-decode; the allocation ledger (link-time wrapped allocator) must be empty after the last free; ASan build turns double frees into Crash events")
 
 
 def check_C04(tier, seed):
